@@ -14,6 +14,7 @@ Anything else raises NotEvaluable: the caller reports the obligation as undecide
 from __future__ import annotations
 
 import ast
+import math
 import warnings
 from fractions import Fraction
 from typing import Callable, Optional
@@ -36,6 +37,9 @@ class _TiedIndex:
 
 
 TIED = _TiedIndex()
+# values at or below this bound that tie in a top-k are taken in index order (a table sets it to 0 when candidates without mass carry no
+# information); above it the index of a tie is poisoned
+TIE_BREAK_BY_INDEX_AT_OR_BELOW = -math.inf
 
 
 class DivisionByZero(NotEvaluable):
@@ -273,7 +277,9 @@ def teval(e: ast.AST, env: dict, leaf: Optional[Callable] = None, depth: int = 0
         base = ev(e.value)
         idx = _index(e.slice, ev)
         try:
-            if isinstance(base, tuple):
+            if isinstance(base, (tuple, list)):
+                if isinstance(idx, Fraction) and idx.denominator == 1:
+                    idx = int(idx)
                 return base[idx]
             if _is_arr(base):
                 return base[idx]
@@ -420,7 +426,7 @@ def _call_impl(c: ast.Call, ev, t: str):
             fill = 1 if name == "torch.ones" else 0
         dt = next((ev(k.value) for k in c.keywords if k.arg == "dtype"), None)
         out = np.empty(shape, dtype=object)
-        out[...] = Fraction(fill) if not isinstance(fill, bool) else Fraction(int(fill))
+        out[...] = fill if isinstance(fill, float) and (fill != fill or abs(fill) == math.inf) else (Fraction(fill) if not isinstance(fill, bool) else Fraction(int(fill)))
         if dt == "<torch.bool>":
             return out != 0
         return out
@@ -474,6 +480,18 @@ def _call_impl(c: ast.Call, ev, t: str):
             a_[()] = Fraction(v)
             return a_
         raise NotEvaluable("torch.tensor of a non-number")
+    if name.endswith("one_hot") and name.split(".")[0] in ("torch", "F") and len(c.args) == 2:
+        a, n_ = ev(c.args[0]), _int(ev(c.args[1]))
+        if not _is_arr(a):
+            raise NotEvaluable("one_hot of a non-tensor")
+        out = np.zeros(a.shape + (n_,), dtype=object)
+        out[...] = Fraction(0)
+        for ix in np.ndindex(a.shape):
+            v_ = int(a[ix])
+            if not 0 <= v_ < n_:
+                raise IndexError("one_hot class out of range")
+            out[ix + (v_,)] = Fraction(1)
+        return out
     if name == "torch.relu" and len(c.args) == 1:
         a = _as_exact(ev(c.args[0]))
         return np.where(a < 0, Fraction(0), a)
@@ -486,7 +504,7 @@ def _call_impl(c: ast.Call, ev, t: str):
         return (max if name == "max" else min)(*vals)
     if name == "float" and len(c.args) == 1 and isinstance(c.args[0], ast.Constant) and isinstance(c.args[0].value, str) \
             and c.args[0].value.strip().lower() in ("inf", "+inf", "-inf", "infinity", "-infinity"):
-        import math
+        pass  # (math is imported at module level)
         return -math.inf if c.args[0].value.strip().startswith("-") else math.inf
     if name in ("int", "float", "bool") and len(c.args) == 1:
         v = ev(c.args[0])
@@ -535,6 +553,15 @@ def _call_impl(c: ast.Call, ev, t: str):
             if m in ("min", "max", "sum"):
                 return x
         raise NotEvaluable(t[:50])
+    if m in ("to", "type") and c.args:
+        tgt = [ev(a_) for a_ in c.args] + [ev(k_.value) for k_ in c.keywords if k_.arg == "dtype"]
+        if "<torch.bool>" in [v_ for v_ in tgt if isinstance(v_, str)]:
+            return x if x.dtype == bool else (_as_exact(x) != 0)
+        if any(isinstance(v_, str) and v_.startswith("<torch.") for v_ in tgt) and x.dtype == bool:
+            return _as_exact(x)
+        if any(_is_arr(v_) and v_.dtype != bool for v_ in tgt) and x.dtype == bool:
+            return _as_exact(x)  # (`mask.to(lens)`: the dtype of another tensor)
+        return x
     if m == "clone":
         return np.array(x, copy=True)  # (a tensor of its own: in-place updates of one do not reach the other)
     if m in IDENTITY_METHODS:
@@ -626,6 +653,53 @@ def _call_impl(c: ast.Call, ev, t: str):
         if not all(n_ > 0 for n_ in size):
             return np.empty(size, dtype=object)
         return np.array(np.ndarray(shape=size, dtype=object, buffer=root, offset=off * root.itemsize, strides=tuple(s_ * root.itemsize for s_ in stride)), copy=True)
+    if m in ("scatter", "scatter_") and len(c.args) == 3 and not c.keywords:
+        d = _axis(_int(ev(c.args[0])), x.ndim)
+        idx, src = ev(c.args[1]), ev(c.args[2])
+        if not _is_arr(idx) or idx.ndim != x.ndim:
+            raise NotEvaluable("scatter index")
+        ii = np.vectorize(lambda z: int(z), otypes=[int])(idx) if idx.size else idx.astype(int)
+        if ii.size and (ii.min() < 0 or ii.max() >= x.shape[d]) or any(a_ > b_ for k_, (a_, b_) in enumerate(zip(ii.shape, x.shape)) if k_ != d):
+            raise IndexError("scatter index out of range")
+        out = np.array(_as_exact(x), dtype=object, copy=True)
+        if _is_arr(src):
+            if any(a_ > b_ for a_, b_ in zip(ii.shape, src.shape)):
+                raise NotEvaluable("scatter source")
+            srcv = _as_exact(src)[tuple(slice(0, n_) for n_ in ii.shape)]
+        else:
+            srcv = np.empty(ii.shape, dtype=object)
+            srcv[...] = src if isinstance(src, float) else Fraction(src)
+        # (several writes to one cell: the tensor library keeps an unspecified one - only allowed here when they agree)
+        seen = {}
+        for ix in np.ndindex(ii.shape):
+            tgt = list(ix)
+            tgt[d] = int(ii[ix])
+            tgt = tuple(tgt)
+            if tgt in seen and seen[tgt] != srcv[ix]:
+                raise NotEvaluable("scatter writes different values to one cell")
+            seen[tgt] = srcv[ix]
+            out[tgt] = srcv[ix]
+        return out
+    if m == "topk" and 1 <= len(c.args) <= 2:
+        k_ = _int(ev(c.args[0]))
+        d = _axis(_int(ev(c.args[1])) if len(c.args) == 2 else -1, x.ndim)
+        mv = np.moveaxis(_as_exact(x), d, -1)
+        if k_ > mv.shape[-1]:
+            raise IndexError("k larger than the extent")
+        vals, idxs = np.empty(mv.shape[:-1] + (k_,), dtype=object), np.empty(mv.shape[:-1] + (k_,), dtype=object)
+        for ix in np.ndindex(mv.shape[:-1]):
+            row = list(mv[ix])
+            order = sorted(range(len(row)), key=lambda j_: row[j_], reverse=True)  # (stable: the lower index first among equals)
+            for r_, j_ in enumerate(order[:k_]):
+                vals[ix + (r_,)] = row[j_]
+                # ties among finite values: the tensor library does not say which index it reports; ties among -inf (candidates without
+                # mass) are taken in index order - such slots carry no prefix
+                tied = row.count(row[j_]) > 1 and not (row[j_] <= TIE_BREAK_BY_INDEX_AT_OR_BELOW)
+                if tied and any(row[o_] == row[j_] for o_ in order[k_:]):
+                    idxs[ix + (r_,)] = TIED
+                else:
+                    idxs[ix + (r_,)] = Fraction(j_)
+        return (np.moveaxis(vals, -1, d), np.moveaxis(idxs, -1, d))
     if m == "sort":
         dim, desc = _kw(c, ev, ["dim", "descending"], [-1, False])
         a_ = _axis(_int(dim), x.ndim)
